@@ -1,4 +1,4 @@
-(* Model/Layout.v — straight-line table readers and writers as data.
+(* Model/TableLayout.v — straight-line table readers and writers as data.
 
    A reader (`ReadBinary::read`, `ReadFrom`) that is a sequence of primitive reads, checks,
    enum matches, `from_bits_truncate` and fixed-size byte arrays is a `list ritem`; a writer
